@@ -309,6 +309,17 @@ class C12(core.PropertyCheck):
             # the parent of inheriting entries changes after everything was built once: heirs must be regenerated from the new parent
             ops = ops[:5] + [{"op": "postprocess"}, {"op": "update", "path": "includes/extracts-a.yaml", "text": self.gen_text(rng, "includes/extracts-a.yaml", ctx), "via": "disk"},
                              {"op": "postprocess"}]
+        if "includes/extracts-b.yaml" in exists and "includes/extracts-a.yaml" in exists and self._xfile and rng.random() < 0.25:
+            # an entry MOVES from one file to the other, pasted first and cut second: for a moment both files define it (which one
+            # wins then is nobody's business and nothing is compared), afterwards exactly one does
+            via = "disk" if mode == "disk" else "buffer"
+            w = self.words
+            a0 = f"ref: foo\ncontent: |\n  original {w(rng, 2)}\n---\nref: bar\ncontent: |\n  {w(rng, 2)}\n...\n"
+            b1 = f"ref: qux\ncontent: |\n  {w(rng, 2)}\n---\nref: foo\ncontent: |\n  moved {w(rng, 2)}\n...\n"
+            a1 = f"ref: bar\ncontent: |\n  {w(rng, 2)}\n...\n"
+            ops = ops[:4] + [{"op": "update", "path": "includes/extracts-a.yaml", "text": a0, "via": via}, {"op": "postprocess"},
+                             {"op": "update", "path": "includes/extracts-b.yaml", "text": b1, "via": via},
+                             {"op": "update", "path": "includes/extracts-a.yaml", "text": a1, "via": via}, {"op": "postprocess"}]
         if rng.random() < 0.25:
             # bounce: a file other files look for goes away and comes back (whoever looked for it must be re-parsed both times)
             cands = sorted(p for p in exists if p != "index.txt" and (is_source(p) or mode == "disk"))
